@@ -52,6 +52,18 @@ def sources_for(rnd, cB, kw, big):
         out.append(("other-dict", mk([corpus.text(rnd, 33)] + layout1[1:])))
         out.append(("nocomp-source", mk(layout1, comp_type=0)))
     out.append(("unrelated", mk([b""] + [corpus.rand(rnd, 50) for _ in range(3)])))
+    # a well-formed source of the OTHER compression type whose index lists B's chunk checksums and data sizes with
+    # stored sizes of its own: equal checksum and data size do not make a match when the stored sizes differ
+    hB = ref.parse_header(mk(cB))
+    other = 0 if kw["comp_type"] == 2 else 2
+    ents = []
+    for e in hB.entries:
+        e2 = dict(e); e2.pop("start", None)
+        e2["clen"] = e2["ulen"] if other == 0 else (e["clen"] + 3 if e["clen"] else 0)
+        ents.append(e2)
+    body = corpus.rand(rnd, sum(e["clen"] for e in ents))
+    out.append(("cross-type-misindex", ref.build_header(hash_type=1, chunk_hash_type=kw["chunk_hash_type"], flags=0, comp_type=other, entries=ents,
+                                                        data_digest=ref.digest(1, body)) + body))
     return out
 
 
